@@ -317,8 +317,29 @@ func tokenFieldLoad(v ssa.Value, tokfld *types.Var, sub string) bool {
 	if !ok || fieldOfAddr(fa) == nil || fieldOfAddr(fa).Name() != sub {
 		return false
 	}
-	fa2, ok := fa.X.(*ssa.FieldAddr)
-	return ok && fieldOfAddr(fa2) == tokfld
+	if fa2, ok := fa.X.(*ssa.FieldAddr); ok {
+		return fieldOfAddr(fa2) == tokfld
+	}
+	// a local copy of the token (`next := p.PeekToken`): one store, of the loaded token field; the copy is read in the
+	// same function (a predicate does not advance between the copy and the test)
+	if al, ok := fa.X.(*ssa.Alloc); ok && !al.Heap {
+		var src ssa.Value
+		n := 0
+		for _, r := range *al.Referrers() {
+			if st, ok := r.(*ssa.Store); ok && st.Addr == ssa.Value(al) {
+				n++
+				src = st.Val
+			}
+		}
+		if n == 1 {
+			if ld, ok := src.(*ssa.UnOp); ok && ld.Op == token.MUL {
+				if fa3, ok := ld.X.(*ssa.FieldAddr); ok && fieldOfAddr(fa3) == tokfld {
+					return true
+				}
+			}
+		}
+	}
+	return false
 }
 
 func (a *parserAnchors) parseCond(v ssa.Value) atom {
